@@ -247,6 +247,43 @@ def check_plan(spec, m, plan_desc, res, ctx, methods=("first_order",), n_per=N):
                             break
                 except Exception as e:
                     bad("exception", "force_split_frames: %s: %s" % (type(e).__name__, str(e)[:300]), method=method, source=source, error=type(e).__name__, what="split_frames")
+            # (a3) first order: the same plan reached by EDITING - a decoy instrument and a decoy target are registered
+            #      and then withdrawn (status=False) - is the same plan
+            if method == "first_order" and NP == N:
+                try:
+                    plan_e = ir.SimulationPlan(m, span)
+                    used_s = {(ins[0], ins[1]) for ins in instruments}
+                    used_v = {tg[1] for tg in targets}
+                    decoy_s = [i for i in range(spec.n) if (instruments[0][0], i) not in used_s]
+                    decoy_v = [j for j in range(spec.n) if j not in used_v]
+                    dts = tuple(START + d - 1 for d in sorted({ins[2] for ins in instruments}))
+                    un = instruments[0][0] == "u"
+                    endo = plan_e.endogenize_unanticipated if un else plan_e.endogenize_anticipated
+                    exo = plan_e.exogenize_unanticipated if un else plan_e.exogenize_anticipated
+                    if decoy_s:
+                        endo(dts, (spec.shk(decoy_s[0]) if un else "ant_" + spec.shk(decoy_s[0])))
+                    if decoy_v:
+                        exo(dts, spec.var(decoy_v[0]))
+                    for tg, ins in zip(targets, instruments):
+                        p_t, p_i = START + tg[2] - 1, START + ins[2] - 1
+                        exo((p_t,), spec.var(tg[1]))
+                        endo((p_i,), (spec.shk(ins[1]) if un else "ant_" + spec.shk(ins[1])))
+                    if decoy_s:
+                        endo(dts, (spec.shk(decoy_s[0]) if un else "ant_" + spec.shk(decoy_s[0])), status=False)
+                    if decoy_v:
+                        exo(dts, spec.var(decoy_v[0]), status=False)
+                    if decoy_s or decoy_v:
+                        out_e = simulate(m, db_in, span, plan=plan_e, method=method)
+                        res.ev()
+                        res.count("planned_simulations_edited_plan")
+                        for n_ in names_s + names_v:
+                            a, b = np.nan_to_num(arr(out_e, n_, 0)), np.nan_to_num(arr(out, n_, 0))
+                            if not np.allclose(a, b, rtol=tol, atol=tol * scale):
+                                bad("edited_plan", "%s: plan with withdrawn decoys %s, plain plan %s" % (n_, np.round(a, 8).tolist(), np.round(b, 8).tolist()),
+                                    method=method, source=source, what="edited_plan")
+                                break
+                except Exception as e:
+                    bad("exception", "edited plan: %s: %s" % (type(e).__name__, str(e)[:300]), method=method, source=source, error=type(e).__name__, what="edited_plan")
             # (c) the planned path is an ordinary simulation under the returned shocks
             db_re = db_in.copy()
             for n_ in names_s:
@@ -380,7 +417,8 @@ def run(ctx, total, info):
                       "variant_runs": (c.get("variant_runs", 0), 700),
                       "plans_ending_on_the_last_period": (c.get("plans_ending_on_the_last_period", 0), 1500),
                       "planned_simulations_split_frames": (c.get("planned_simulations_split_frames", 0), 3000),
-                      "plans_with_unanticipated_bystander": (c.get("plans_with_unanticipated_bystander", 0), 400)}
+                      "plans_with_unanticipated_bystander": (c.get("plans_with_unanticipated_bystander", 0), 400),
+                      "planned_simulations_edited_plan": (c.get("planned_simulations_edited_plan", 0), 1500)}
 
 
 def replay(case):
